@@ -2,6 +2,7 @@
 (index/index.py, collect.py, push.py, fetch.py, save.py, hashfile/transfer.py)."""
 import contextlib
 import os
+import random
 
 from . import gen, stores
 from .util import md5hex, safe_call, walk_files
@@ -407,12 +408,205 @@ def check_file_remote(ctx, case):
     ctx.oracle(kind2 == "ok" and had_to_move <= final, case, {"why": "a clean retry of the fetch does not complete the cache", "missing": sorted(had_to_move - final), "retry": str(res2)})
 
 
+def outage_fs():
+    """a local filesystem that can be switched off like a lost connection: while `down`, every access raises ConnectionError"""
+    from dvc_objects.fs.local import LocalFileSystem
+
+    io = {"open", "exists", "isfile", "isdir", "info", "ls", "walk", "find", "get", "get_file", "put", "put_file", "size", "getsize", "cat", "cat_file",
+          "read_bytes", "read_text", "copy", "remove", "rm", "rm_file", "move", "mv", "makedirs", "mkdir", "lexists", "is_empty", "checksum", "iscopy",
+          "link", "hardlink", "symlink", "reflink", "upload_fobj"}
+
+    class OutageFS(LocalFileSystem):
+        down = False
+
+        def __getattribute__(self, name):
+            if name in io and object.__getattribute__(self, "down"):
+                def refuse(*a, **kw):
+                    raise ConnectionError("injected: the remote is unreachable")
+
+                return refuse
+            return object.__getattribute__(self, name)
+
+    return OutageFS()
+
+
+class RetryWorld(World):
+    """the remotes sit on filesystems that can be switched off"""
+
+    def odb(self, name, fresh=""):
+        key = name + fresh
+        if key not in self.odbs and name.startswith("R"):
+            from dvc_data.hashfile.db import HashFileDB
+            from dvc_data.hashfile.db.local import LocalHashFileDB
+
+            cfg = {}
+            if self.case["remote_index"]:
+                cfg["tmp_dir"] = os.path.join(self.root, "tmp-" + key)
+            path = os.path.join(self.root, key)
+            os.makedirs(path, exist_ok=True)
+            self.odbs[key] = (LocalHashFileDB if self.case["local"] else HashFileDB)(outage_fs(), path, **cfg)
+        return super().odb(name, fresh)
+
+
+def gen_retry(rng):
+    """fetch rounds of a caller that keeps its collected view (`cache_index` / `cache_key` of collect()) between the rounds: a first
+    round during an outage (remotes unreachable, directory listings not uploaded yet, failing copies), then a clean retry"""
+    case = gen_case(rng)
+    case["fail_fraction"] = 0.0
+    if not any(e.get("remote") for e in case["mapping"]):
+        next(e for e in case["mapping"] if not e["prefix"])["remote"] = rng.choice(["R1", "R2"])
+    if rng.random() < 0.5:
+        # every remote store is the remote of one prefix only, inherited ones included (a prefix without a remote of its own falls
+        # back to the enclosing prefix's): a further prefix gets a remote store of its own
+        root_remote = next(e for e in case["mapping"] if not e["prefix"]).get("remote")
+        seen = {root_remote} if root_remote else set()
+        for e in sorted(case["mapping"], key=lambda e: len(e["prefix"])):
+            if e["prefix"] and (e.get("remote") or root_remote) in seen:
+                e["remote"] = next(r for r in ("R1", "R2", "R3", "R4", "R5", "R6", "R7") if r not in seen)
+            if e.get("remote"):
+                seen.add(e["remote"])
+    # (StorageMapping.add_* copies the roles a new prefix inherits at that moment into its own entry: prefixes inside a directory
+    # object are added last here, so that what they inherit is final - the order dependence is not what this family is about)
+    case["mapping"].sort(key=lambda e: len(e["prefix"]) > 1)
+    used = sorted({e["remote"] for e in case["mapping"] if e.get("remote")})
+    kinds = rng.choice([["down"], ["late"], ["copies"], ["down"], ["late"], ["down", "copies"], ["late", "copies"], []])
+    case["retry"] = {
+        "down": [r for r in used if rng.random() < 0.7] or [rng.choice(used)] if "down" in kinds else [],
+        "late": rng.randrange(1, 1 << 6) if "late" in kinds else 0,
+        "copy_failures": rng.choice([0.3, 0.6]) if "copies" in kinds else 0.0,
+        "reuse": rng.choice(["memory", "memory", "memory", "sqlite", "sqlite", "none"]),
+        "cache_key": rng.choice([[], ["fetch", "t0"]]),
+        "same_index": rng.random() < 0.5,
+        "fail_seed": rng.randrange(1 << 30),
+    }
+    return case
+
+
+def check_retry(ctx, case):
+    from dvc_data.index.checkout import apply, compare
+    from dvc_data.index.collect import collect
+    from dvc_data.index.fetch import fetch
+    from dvc_data.index.index import DataIndex
+    from dvc_data.index.push import push
+
+    rt = case["retry"]
+    w = RetryWorld(ctx, case)
+    w.fill_caches()
+    ents = w.entries()
+    pairs = {(w.resolve(tuple(e["prefix"]), "remote"), w.resolve(tuple(e["prefix"]), "cache")) for e in case["mapping"]}
+    conflict = any(r1_ == r2_ and c1_ != c2_ and r1_ for (r1_, c1_) in pairs for (r2_, c2_) in pairs)
+    sig = "one-remote-designated-by-prefixes-with-different-caches" if conflict else None
+    # the remotes are filled by a clean push
+    k0, r0 = safe_call(lambda: push(collect([w.index()], "remote", push=True)))
+    if k0 != "ok" or r0[1]:
+        ctx.oracle(bool(sig), case, {"why": "a fault-free push raised or reported failures", "impl": str(r0)})
+        return
+    wantc = {}
+    for k, oid, isdir in ents:
+        for kk, o in w.reach_keys(k, oid, isdir):
+            r, c = w.resolve(kk, "remote"), w.resolve(kk, "cache")
+            if r and c:
+                wantc.setdefault(c, set()).add(o)
+    remotes = sorted({e["remote"] for e in case["mapping"] if e.get("remote")})
+    # ---- the outage of the first round
+    late = {}
+    dirs = sorted(w.dirobjs)
+    for i, d in enumerate(dirs):
+        if (rt["late"] >> (i % 6)) & 1:
+            for r in remotes:
+                p = os.path.join(w.odb(r).path, w.tree_oid[d][:2], w.tree_oid[d][2:])
+                if os.path.exists(p):
+                    late[p] = (w.odb(r).path, w.tree_oid[d])
+                    os.remove(p)
+    allobjs = sorted(set().union(*wantc.values())) if wantc else []
+    frng = random.Random(rt["fail_seed"])
+    failing = [o for o in allobjs if frng.random() < rt["copy_failures"]]
+    if rt["reuse"] == "none":
+        ci, ck = None, None
+    else:
+        ci = DataIndex.open(os.path.join(w.root, "collected.db")) if rt["reuse"] == "sqlite" else DataIndex()
+        ck = tuple(rt["cache_key"])
+    idx = w.index(cache_suffix="-rt")
+    ctx.case(case, nontrivial=bool(wantc) and bool(rt["down"] or late or failing))
+    ctx.count("retry: outage=%s reuse=%s" % ("+".join(n for n, on in (("down", rt["down"]), ("late", late), ("copies", failing)) if on) or "none", rt["reuse"]))
+
+    def round_(failing_now):
+        i = idx if rt["same_index"] else w.index(cache_suffix="-rt")
+        with contextlib.ExitStack() as st:
+            for c in ("K1", "K2"):
+                st.enter_context(stores.Faults(w.odb(c, "-rt"), failing_now).active())
+            return fetch(collect([i], "remote", cache_index=ci, cache_key=ck))
+
+    def listing():
+        return {c: set(stores.listing_of(w.odb(c, "-rt").path)) for c in ("K1", "K2")}
+
+    for r in rt["down"]:
+        w.odb(r).fs.down = True
+    try:
+        k1, r1 = safe_call(lambda: round_(failing))
+    finally:
+        for r in remotes:
+            w.odb(r).fs.down = False
+    for _, (path, oid) in late.items():
+        stores.put_raw(path, oid, w.content[oid])
+    mid = listing()
+    failed_round = k1 != "ok" or r1[1] > 0
+    ctx.count("retry: first round %s" % ("raised" if k1 != "ok" else "reported failures" if r1[1] else "clean"))
+    if k1 == "ok":
+        ctx.oracle(r1[0] <= sum(len(v) for v in mid.values()) or bool(sig), case, {"why": "more objects reported fetched than arrived", "reported": list(r1)})
+        if rt["down"] or late or failing:
+            missing1 = {c: sorted(wantc.get(c, set()) - mid[c]) for c in mid}
+            ctx.oracle(failed_round or not any(missing1.values()), case,
+                       {"why": "a fetch round during an outage left the cache incomplete and reported no failure", "reported": list(r1), "missing": missing1},
+                       signature=sig)
+    # ---- the clean retry: the same calls again
+    # collect() skips the collection for a remote as soon as the kept view has *any* node for it: when several prefixes designate
+    # one remote and the first round collected one of them before another one raised, the retry never collects the rest and
+    # ends incomplete without reporting a failure (finding on the unrepaired tree, reported under its own signature)
+    rem = [r for r in (w.resolve(tuple(e["prefix"]), "remote") for e in case["mapping"]) if r]
+    sig2 = sig
+    if not sig and k1 != "ok" and rt["reuse"] != "none" and len(rem) != len(set(rem)):
+        sig2 = "retry-skips-collection-after-a-round-that-collected-one-of-several-prefixes-of-a-remote"
+    k2, r2 = safe_call(lambda: round_(()))
+    if ci is not None and rt["reuse"] == "sqlite":
+        safe_call(ci.close)
+    ctx.oracle(k2 == "ok", case, {"why": "the clean retry of a fetch raised", "impl": str(r2), "first_round": str(r1)}, signature=sig2)
+    if k2 != "ok":
+        return
+    final = listing()
+    ctx.oracle(r2[1] == 0, case, {"why": "the clean retry of a fetch reported failures", "first_round": str(r1), "retry": list(r2)}, signature=sig2)
+    for c in ("K1", "K2"):
+        exp = wantc.get(c, set())
+        ctx.oracle(exp <= final[c] and final[c] <= set(w.content), case,
+                   {"why": "a failed fetch round followed by a clean retry (same calls, the collected view kept in between) does not end complete",
+                    "cache": c, "missing": sorted(exp - final[c]), "first_round": str(r1), "retry": list(r2), "outage": rt}, signature=sig2)
+        for o in final[c]:
+            ctx.oracle(md5hex(stores.read_obj(w.odb(c, "-rt").path, o)) == o.split(".")[0], case, {"why": "a fetched object has the wrong bytes", "oid": o})
+    arrived2 = sum(len(final[c] - mid[c]) for c in final)
+    if len(pairs) == 1:
+        # one remote, one cache: the retry's count is what arrived in the retry
+        ctx.oracle(r2[0] == arrived2, case, {"why": "the retry's fetched count differs from the number of objects that arrived in it", "reported": list(r2), "arrived": arrived2})
+    out = os.path.join(w.root, "out-rt")
+    os.makedirs(out)
+    safe_call(lambda: apply(compare(None, w.index(cache_suffix="-rt")), out, stores.fs_local(), update_meta=False, storage="cache", onerror=lambda *a: None))
+    got_files = walk_files(out)
+    for k, c in w.files.items():
+        if w.resolve(k, "cache") and w.resolve(k, "remote"):
+            ctx.oracle(got_files.get("/".join(k)) == c, case, {"why": "checkout from the cache fetched by a failed round + retry does not reproduce a file", "path": "/".join(k)}, signature=sig2)
+    for d, sub in w.dirobjs.items():
+        if w.resolve(d, "cache") and w.resolve(d, "remote"):
+            for r, c in sub.items():
+                if w.resolve(d + r, "cache") and w.resolve(d + r, "remote"):
+                    ctx.oracle(got_files.get("/".join(d + r)) == c, case,
+                               {"why": "checkout from the cache fetched by a failed round + retry does not reproduce a file of a directory object", "path": "/".join(d + r)}, signature=sig2)
+
+
 def run(ctx):
     ctx.rule = (
         "indexes with files and directory objects (nested listings, contents shared between trees and prefixes) under 1-4 storage "
         "prefixes (root, sub-trees, and sub-directories strictly inside directory objects) whose cache/remote roles are set independently and whose remotes may be shared by sibling "
         "prefixes; a first push with a random subset of failing uploads, a clean retry, fetch into empty caches, checkout from them; "
-        "with/without a remote index, both store classes; histories of 2-3 pushes of different sub-indexes through the same remotes with persistent existence indexes, the remotes being garbage-collected by somebody else in between; fetches from a remote that is a plain directory (FileStorage) into an object-store cache with failing copies, absent sources and a clean retry (counts against what arrived). non-trivial = >=2 prefixes and something to push"
+        "with/without a remote index, both store classes; histories of 2-3 pushes of different sub-indexes through the same remotes with persistent existence indexes, the remotes being garbage-collected by somebody else in between; fetches from a remote that is a plain directory (FileStorage) into an object-store cache with failing copies, absent sources and a clean retry (counts against what arrived); fetch rounds of a caller that keeps its collected view (cache_index/cache_key of collect(): none, in memory, SQLite-backed; the same or a rebuilt index) between a first round during an outage (remotes on a filesystem that is switched off, directory listings not yet in the remote, failing copies, and combinations) and a clean retry of the same calls: the retry ends complete, counts, bytes, checkout. non-trivial = >=2 prefixes and something to push"
     )
     ctx.assumptions = ["collection is per mapping prefix: a shorter prefix's storage may also receive objects of a longer prefix (allowed by the statement)"]
     for _ in range(ctx.n(90, 1000)):
@@ -421,6 +615,8 @@ def run(ctx):
         check_history(ctx, gen_history(ctx.rng))
     for _ in range(ctx.n(40, 500)):
         check_file_remote(ctx, gen_file_remote(ctx.rng))
+    for _ in range(ctx.n(32, 400)):
+        check_retry(ctx, gen_retry(ctx.rng))
 
 
 def search(ctx):
@@ -430,4 +626,4 @@ def search(ctx):
 
 def replay(ctx, payload):
     c = payload.get("case") or payload.get("diverging_case")
-    (check_history if c.get("history") else check_file_remote if c.get("file_remote") else check)(ctx, c)
+    (check_history if c.get("history") else check_file_remote if c.get("file_remote") else check_retry if c.get("retry") else check)(ctx, c)
